@@ -776,7 +776,7 @@ fn dump_crate<'tcx>(tcx: TyCtxt<'tcx>, name: &str, out: &str) {
             DefKind::Const { .. } | DefKind::AssocConst { .. } => {
                 // only non-generic consts with scalar value
                 let generics = tcx.generics_of(did);
-                if generics.own_requires_monomorphization() || generics.parent_count > 0 && tcx.generics_of(tcx.parent(did)).requires_monomorphization(tcx) {
+                if generics.own_requires_monomorphization() {
                     continue;
                 }
                 if tcx.def_kind(tcx.parent(did)) == DefKind::Trait {
